@@ -70,6 +70,10 @@ for f, lo, hi in rs:
             if a in ln and '"' not in ln.split(a)[0][-1:]:
                 cands.append(('%s->%s' % (a.strip(), b.strip()), ln.replace(a, b, 1)))
         st = ln.strip()
+        # negation dropped (or added to a call used as a condition)
+        for m in re.finditer(r'(if |&& |\|\| |return |\()!([A-Za-z_(])', ln):
+            cands.append(('drop-not', ln[:m.start(2) - 1] + ln[m.start(2):]))
+            break
         if st == 'return true':
             cands.append(('ret-false', ln.replace('true', 'false')))
         if st == 'return false':
@@ -87,12 +91,15 @@ for f, lo, hi in rs:
             cands.append(('del-incr', None))
         elif st == 'continue':
             cands.append(('del-continue', None))
+        only = os.environ.get('MUTOPS')
         for kind, newline in cands:
+            if only and kind not in only.split(','):
+                continue
             u = uniq(i, newline)
             if u:
                 muts.append({'name': '%s:%d %s' % (f, i + 1, kind), 'file': f, 'find': u[0], 'replace': u[1], 'expect': prop + '/'})
 
-vd = '/tmp/mutgen-verif-' + prop
+vd = '/tmp/mutgen-verif-' + os.environ.get('MUTTAG', '') + prop
 shutil.rmtree(vd, ignore_errors=True)
 os.makedirs(vd + '/mutants'); os.makedirs(vd + '/evidence')
 for x in ('known_findings.json', 'properties.jsonl'):
@@ -122,7 +129,7 @@ for m, r_ in zip(muts, res):
     else:
         quiet.append(m)
 print('%s: fired %d, do not compile %d, quiet %d' % (prop, nf, ns, len(quiet)))
-json.dump(quiet, open('/tmp/mutgen-quiet-%s.json' % prop, 'w'), indent=1)
+json.dump(quiet, open('/tmp/mutgen-quiet%s-%s.json' % (os.environ.get('MUTTAG', ''), prop), 'w'), indent=1)
 for m in quiet:
     print('  QUIET', m['name'])
 shutil.rmtree(vd, ignore_errors=True)
